@@ -29,7 +29,7 @@ import (
 // (b) whole schedules are re-executed in fresh processes at GOMAXPROCS 1 and 16; the IAVL app hash
 //     of every block must be identical.
 // (c) crash before commit + re-execution reproduces the app hash (raised by the runner).
-// (static) tripwire: go/ast scan of the module's non-test sources.
+// (static) go/ast scan of the module's non-test sources: informational note lines only.
 
 var c19Stores = []string{"alliance", "bank", "staking", "distribution", "slashing", "mint"}
 
